@@ -64,6 +64,9 @@ pub fn oracle(req: &Req, got: &Resp) -> Result<(), String> {
     if req.op == "sd.raw" {
         return serde_ops::oracle_raw(req, got);
     }
+    if req.op == "sig.batch" {
+        return eddsa::oracle_batch(req, got);
+    }
     if req.op == "tot.verify_longctx" {
         return totality::oracle_longctx(req, got);
     }
